@@ -84,6 +84,9 @@ TIE_SEARCH = {
     "vm_jump_finally_effect": ("TieHandlers", "vm_jump_finally_impl"), "vm_end_finally_pending_return": ("TieHandlers", "vm_end_finally_impl"),
     "vm_end_finally_nothing_pending": ("TieHandlers", "vm_end_finally_impl"), "vm_end_finally_rethrows_uncaught": ("TieHandlers", "vm_end_finally_impl"),
     "vm_throw_effect": ("TieHandlers", "vm_unwind_stack"),
+    "load_rejects_finished": ("TieFibers", "vm_load_fiber"), "load_rejects_called": ("TieFibers", "vm_load_fiber"), "load_effect": ("TieFibers", "vm_load_fiber"),
+    "load_first_effect": ("TieFibers", "vm_load_fiber"), "load_stages": ("TieFibers", "vm_load_fiber"), "load_dangling_panics": ("TieFibers", "vm_load_fiber"),
+    "unload_stages": ("TieFibers", "vm_unload_fiber"), "unload_no_caller": ("TieFibers", "vm_unload_fiber"), "unload_effect": ("TieFibers", "vm_unload_fiber"),
     "precedence_from_discr": ("TieCompiler", "Precedence::from"),
     "precedence_from_panics_iff": ("TieCompiler", "Precedence::from"),
     "precedence_names_are_the_table": ("TieCompiler", "Precedence-enum"),
